@@ -36,6 +36,8 @@ CONSTANTS
   InMsgs,        \* sequence of [qos, tag]: what the broker publishes to the client, in this order
   RecordHist,    \* FALSE in the liveness configurations (hist would make every state distinct)
   DEV_F4, DEV_F6, DEV_F2, DEV_F10, DEV_F19, DEV_F25,
+  InitStore,     \* <<>>, or the Persistence an earlier incarnation left behind: the run starts with its adoption
+  InitDamage,    \* records of InitStore removed or altered before that adoption, at most
   Blocking       \* TRUE: a process may be released from its gate into a receive on the write semaphore that blocks (it then
                  \* waits at no gate, queued); FALSE: such a move exists only once it can complete (fewer states: the
                  \* process stays at its gate meanwhile, which is where the replay keeps it)
@@ -780,7 +782,30 @@ Proj(s) == [acked |-> s.acked, received |-> s.received, completed |-> s.complete
             ping |-> IF s.pingSlot = NoSlot THEN 0 ELSE 1, utx |-> Cardinality(DOMAIN s.subs),
             online |-> s.online, offline |-> s.offline]
 
-Init == st = St0 /\ hist = <<>>
+\* A run may start from a Persistence that an earlier incarnation left behind (InitStore), possibly damaged: the
+\* client of the first generation is then the one AdoptSession returns.  The broker has seen the transfers that
+\* reached the PUBREL stage (it awaits their PUBREL and has forwarded them).
+SeedDamages ==
+  LET out == {x \in DOMAIN InitStore : ~IsMark(x)}
+      without(D) == [k \in DOMAIN InitStore \ D |-> InitStore[k]]
+  IN {[store |-> InitStore, keys |-> <<>>, how |-> "none", w |-> 0]} \cup
+     {[store |-> without(D), keys |-> SetToSeq(D), how |-> h, w |-> IF h = "flip" THEN Cardinality(D) ELSE 0]
+      : D \in {X \in SUBSET out : X # {} /\ Cardinality(X) <= InitDamage}, h \in {"remove", "flip"}}
+Seeded(d) ==
+  LET a == Adopt(d.store)
+      rels == {k \in DOMAIN InitStore : ~IsMark(k) /\ InitStore[k].kind = "REL"}
+  IN [St0 EXCEPT !.store = d.store, !.rseq = a.rseq, !.warn = a.nwarn, !.damaged = Len(d.keys),
+                 !.acked = a.acked, !.acceptN = a.acceptN, !.submitN = a.acceptN,
+                 !.completed = a.completed, !.received = a.received, !.queue = a.queue,
+                 !.broker.session = TRUE, !.broker.awaiting = rels,
+                 !.broker.delivered = [i \in 1..Cardinality(rels) |-> InitStore[SetToSeq(rels)[i]].tag]]
+Init == IF InitStore = <<>> THEN st = St0 /\ hist = <<>>
+        ELSE \E d \in SeedDamages :
+               /\ st = Seeded(d)
+               /\ hist = IF RecordHist
+                         THEN [i \in DOMAIN d.keys |-> [env |-> "damage", key |-> d.keys[i], how |-> d.how]]
+                              \o <<[env |-> "adopt", gen |-> 1, nwarn |-> Adopt(d.store).nwarn + d.w, x |-> Proj(Seeded(d))]>>
+                         ELSE <<>>
 
 ProcStep(p) ==
   \E mv \in MovesOf(st, p) : \E m2 \in Settled(mv, p) :
